@@ -84,8 +84,8 @@ func Replay(c Cfg, hist []Event, oracle Oracle) result {
 			for _, p := range ref.Rep {
 				sc.FusedDownBefore = append(sc.FusedDownBefore, p.FusedDown)
 			}
-			sc.X = ref.Step(e)
 			w.Apply(e)
+			sc.X = ref.Step(e, w.HookFired)
 			if w.Now != ref.Now {
 				ev.Fatalf("harness clock %d and reference clock %d disagree", w.Now, ref.Now)
 			}
@@ -152,6 +152,8 @@ func Alphabet(c Cfg, depth int, fullOutcomeDepth int, macro bool) []Event {
 		if c.Policy != "none" {
 			for i := 0; i < 2; i++ {
 				es = append(es, Event{K: "E", I: i}, Event{K: "L", I: i})
+				// a healthy round with a connection error landing inside replica i's probe
+				es = append(es, Event{K: "R", A: "ok", B: "ok", I: i, F: "getcheck"})
 			}
 		}
 		ds := []int64{1, PingPeriod, 2*PingPeriod + 1}
@@ -182,6 +184,12 @@ func Alphabet(c Cfg, depth int, fullOutcomeDepth int, macro bool) []Event {
 	}
 	if c.Policy != "none" {
 		es = append(es, Event{K: "E"}, Event{K: "L"})
+		// replica rounds with a request thread's connection error landing inside the round,
+		// at each probe position
+		es = append(es,
+			Event{K: "R", A: "ok", F: "getcheck"}, Event{K: "R", A: "conn_fail", F: "getcheck"},
+			Event{K: "R", A: "ok", F: "hsql"},
+			Event{K: "R", A: "ok", F: "sync"}, Event{K: "R", A: "lag_above", F: "sync"})
 	}
 	seen := map[int64]bool{}
 	ds := []int64{1, PingPeriod, 2*PingPeriod + 1, int64(c.DownAfter) - 1, int64(c.DownAfter)}
@@ -417,7 +425,7 @@ func Main(p *Plan) {
 	r.Set("max_depth", maxDepth)
 	r.Set("depth_bound", p.Depth)
 	r.Set("configs", per)
-	r.Set("explanation", fmt.Sprintf("BFS over event histories (replica probe round with 13 scripted outcomes below depth %d and 5 representative ones from there on, 6 healthy rounds in a row for the gradual policy, master probe round ok/fail, client connection error through GetSlaveConn, late connection error through getConnWithFuse on the replica whatever its status, clock advances) to depth %d per configuration (two-replica configurations: their own reduced alphabet — probe ok / connection failure per replica, fuse through selection or late error on either replica, 3 clock advances — and the depth given in the configuration); every history is replayed on a fresh real Slice whose real health-check loop runs one tick of its ticker per round; states = distinct canonical (implementation state | reference state) keys; transitions = histories replayed = traces validated; distinct_nontrivial = distinct reached states in which a node is down, the breaker has fired or a recovery penalty is pending; distinct_outcomes = distinct (event kind, status change, deciding rule) observations", p.FullDepth, p.Depth))
+	r.Set("explanation", fmt.Sprintf("BFS over event histories (replica probe round with 13 scripted outcomes below depth %d and 5 representative ones from there on, 6 healthy rounds in a row for the gradual policy, master probe round ok/fail, client connection error through GetSlaveConn, late connection error through getConnWithFuse on the replica whatever its status — between rounds and INSIDE a replica round at the probe positions getcheck / health SQL / show slave status —, clock advances) to depth %d per configuration (two-replica configurations: their own reduced alphabet — probe ok / connection failure per replica, fuse through selection or late error on either replica, 3 clock advances — and the depth given in the configuration); every history is replayed on a fresh real Slice whose real health-check loop runs one tick of its ticker per round; states = distinct canonical (implementation state | reference state) keys; transitions = histories replayed = traces validated; distinct_nontrivial = distinct reached states in which a node is down, the breaker has fired or a recovery penalty is pending; distinct_outcomes = distinct (event kind, status change, deciding rule) observations", p.FullDepth, p.Depth))
 	for _, a := range p.Assume {
 		r.Assume(a)
 	}
